@@ -611,3 +611,178 @@ Proof.
   - eapply IxOK_ext; [|exact H]. intros y k. rewrite He. split; [tauto|].
     intros [A|[_ D]]; [exact A|discriminate].
 Qed.
+
+(* ---------- one symbol leaves / joins a module ---------- *)
+
+Lemma ModIx_same : forall w w' m,
+  (forall y, In y (kids w m) -> getn w' y = getn w y) ->
+  kids w' m = kids w m -> nix w' m = nix w m -> rix w' m = rix w m ->
+  ModIx w m -> ModIx w' m.
+Proof.
+  intros w w' m Hg Hk Hn Hr [H1 H2]. unfold ModIx. rewrite Hn, Hr. split.
+  - eapply IxOK_ext; [|exact H1]. intros y k. unfold Rn, kindof. rewrite Hk. split.
+    + intros (A & B & C). rewrite (Hg y A). tauto.
+    + intros (A & B & C). rewrite (Hg y A) in B, C. tauto.
+  - eapply IxOK_ext; [|exact H2]. intros y k. unfold Rr, kindof. rewrite Hk. split.
+    + intros (A & B & C). rewrite (Hg y A). tauto.
+    + intros (A & B & C). rewrite (Hg y A) in B, C. tauto.
+Qed.
+
+Lemma good_discard : forall w p c, kindof w p = KMod ->
+  Good w (drop_kid (mod_index_discard w p c) p c).
+Proof.
+  intros w p c Hp. destruct (kind_eqb (kindof w c) KSym) eqn:Ec.
+  2:{ assert (Hc : kindof w c <> KSym) by (intros E; rewrite E in Ec; discriminate).
+      rewrite mid_notsym by exact Hc. unfold drop_kid. apply good_set_kids.
+      intros _ y Hy. rewrite In_remove_id. split; [tauto|]. intros A. split; [exact A|]. congruence. }
+  assert (Hc : kindof w c = KSym) by (destruct (kindof w c); try discriminate; reflexivity).
+  clear Ec. set (W := drop_kid (mod_index_discard w p c) p c).
+  assert (Hg : forall y, getn W y = getn w y) by (intros y; apply (mid_getn w p c y)).
+  assert (Hkids : kids W = upd (kids w) p (remove_id c (kids w p))).
+  { unfold W, drop_kid. cbn [set_kids kids]. rewrite mid_kids. reflexivity. }
+  assert (Hnix : nix W = upd (nix w) p (bucket_discard Z.eqb (nname (getn w c)) c (nix w p))).
+  { unfold W, drop_kid. cbn [set_kids nix]. apply mid_nix. exact Hc. }
+  assert (Hrix : rix W = match referent (getn w c) with
+                         | Some b => upd (rix w) p (bucket_discard Z.eqb b c (rix w p))
+                         | None => rix w end).
+  { unfold W, drop_kid. cbn [set_kids rix]. apply mid_rix. exact Hc. }
+  split; [intros n; rewrite Hg; auto|].
+  split; [intros n Hn; unfold W, drop_kid, has; cbn [set_kids nodes]; rewrite mid_nodes; exact Hn|].
+  split.
+  - intros n Hn. assert (Hne : n <> p) by congruence. rewrite Hnix, Hrix. split.
+    + apply upd_other. exact Hne.
+    + destruct (referent (getn w c)); [apply upd_other; exact Hne|reflexivity].
+  - rewrite !SymIx_iff. intros H m Hm. unfold kindof in Hm. rewrite Hg in Hm. fold (kindof w m) in Hm.
+    destruct (Z.eq_dec m p) as [->|Hne].
+    + destruct (H p Hp) as [H1 H2]. unfold ModIx. split.
+      * rewrite Hnix, upd_same. eapply IxOK_discard; [exact H1|].
+        intros y k. unfold Rn, kindof. rewrite Hkids, upd_same, In_remove_id, !Hg. split.
+        -- intros ((A & A') & B & C). split; [tauto|]. intros [D _]. exact (A' D).
+        -- intros ((A & B & C) & D). split; [|tauto]. split; [exact A|]. intros ->. apply D.
+           split; [reflexivity|]. symmetry. exact C.
+      * assert (Hiff : forall y k, Rr W p y k <-> Rr w p y k /\ ~ (y = c /\ referent (getn w c) = Some k)).
+        { intros y k. unfold Rr, kindof. rewrite Hkids, upd_same, In_remove_id, !Hg. split.
+          - intros ((A & A') & B & C). split; [tauto|]. intros [D _]. exact (A' D).
+          - intros ((A & B & C) & D). split; [|tauto]. split; [exact A|]. intros ->. apply D.
+            split; [reflexivity|]. exact C. }
+        pose proof (rix_discard_ok (rix w p) (Rr w p) (Rr W p) (referent (getn w c)) c H2 Hiff) as Hx.
+        rewrite Hrix. destruct (referent (getn w c)); [rewrite upd_same|]; exact Hx.
+    + apply (ModIx_same w W m).
+      * intros y _. apply Hg.
+      * rewrite Hkids. apply upd_other. exact Hne.
+      * rewrite Hnix. apply upd_other. exact Hne.
+      * rewrite Hrix. destruct (referent (getn w c)); [apply upd_other; exact Hne|reflexivity].
+      * apply H. exact Hm.
+Qed.
+
+Lemma In_push : forall y c l, In y (if mem c l then l else l ++ [c]) <-> In y l \/ y = c.
+Proof.
+  intros y c l. destruct (mem c l) eqn:E.
+  - apply mem_In in E. split; [tauto|]. intros [A| ->]; assumption.
+  - rewrite in_app_iff. cbn [In]. split; [intros [A|[A|[]]]; auto|intros [A|A]; auto].
+Qed.
+
+Lemma good_add : forall w p c, kindof w p = KMod ->
+  Good w (push_kid (mod_index_add w p c) p c).
+Proof.
+  intros w p c Hp. destruct (kind_eqb (kindof w c) KSym) eqn:Ec.
+  2:{ assert (Hc : kindof w c <> KSym) by (intros E; rewrite E in Ec; discriminate).
+      rewrite mia_notsym by exact Hc. unfold push_kid. apply good_set_kids.
+      intros _ y Hy. rewrite In_push. split; [|tauto]. intros [A| ->]; [exact A|]. congruence. }
+  assert (Hc : kindof w c = KSym) by (destruct (kindof w c); try discriminate; reflexivity).
+  clear Ec. set (W := push_kid (mod_index_add w p c) p c).
+  assert (Hg : forall y, getn W y = getn w y) by (intros y; apply (mia_getn w p c y)).
+  assert (Hkids : kids W = upd (kids w) p (if mem c (kids w p) then kids w p else kids w p ++ [c])).
+  { unfold W, push_kid. cbn [set_kids kids]. rewrite mia_kids. reflexivity. }
+  assert (Hnix : nix W = upd (nix w) p (bucket_add Z.eqb (nname (getn w c)) c (nix w p))).
+  { unfold W, push_kid. cbn [set_kids nix]. apply mia_nix. exact Hc. }
+  assert (Hrix : rix W = match referent (getn w c) with
+                         | Some b => upd (rix w) p (bucket_add Z.eqb b c (rix w p))
+                         | None => rix w end).
+  { unfold W, push_kid. cbn [set_kids rix]. apply mia_rix. exact Hc. }
+  split; [intros n; rewrite Hg; auto|].
+  split; [intros n Hn; unfold W, push_kid, has; cbn [set_kids nodes]; rewrite mia_nodes; exact Hn|].
+  split.
+  - intros n Hn. assert (Hne : n <> p) by congruence. rewrite Hnix, Hrix. split.
+    + apply upd_other. exact Hne.
+    + destruct (referent (getn w c)); [apply upd_other; exact Hne|reflexivity].
+  - rewrite !SymIx_iff. intros H m Hm. unfold kindof in Hm. rewrite Hg in Hm. fold (kindof w m) in Hm.
+    destruct (Z.eq_dec m p) as [->|Hne].
+    + destruct (H p Hp) as [H1 H2]. unfold ModIx. split.
+      * rewrite Hnix, upd_same. eapply IxOK_add; [exact H1|].
+        intros y k. unfold Rn, kindof. rewrite Hkids, upd_same, In_push, !Hg. split.
+        -- intros ([A|A] & B & C); [left; tauto|]. right. split; [exact A|]. subst y. symmetry. exact C.
+        -- intros [(A & B & C)|[-> ->]]; [tauto|]. split; [right; reflexivity|]. split; [exact Hc|reflexivity].
+      * assert (Hiff : forall y k, Rr W p y k <-> Rr w p y k \/ (y = c /\ referent (getn w c) = Some k)).
+        { intros y k. unfold Rr, kindof. rewrite Hkids, upd_same, In_push, !Hg. split.
+          - intros ([A|A] & B & C); [left; tauto|]. right. split; [exact A|]. subst y. exact C.
+          - intros [(A & B & C)|[-> D]]; [tauto|]. split; [right; reflexivity|]. split; [exact Hc|exact D]. }
+        pose proof (rix_add_ok (rix w p) (Rr w p) (Rr W p) (referent (getn w c)) c H2 Hiff) as Hx.
+        rewrite Hrix. destruct (referent (getn w c)); [rewrite upd_same|]; exact Hx.
+    + apply (ModIx_same w W m).
+      * intros y _. apply Hg.
+      * rewrite Hkids. apply upd_other. exact Hne.
+      * rewrite Hnix. apply upd_other. exact Hne.
+      * rewrite Hrix. destruct (referent (getn w c)); [apply upd_other; exact Hne|reflexivity].
+      * apply H. exact Hm.
+Qed.
+
+(* pointwise versions *)
+Lemma mid_nix_at : forall w m n, kindof w n = KSym ->
+  nix (mod_index_discard w m n) m = bucket_discard Z.eqb (nname (getn w n)) n (nix w m).
+Proof. intros w m n H. rewrite mid_nix by exact H. apply upd_same. Qed.
+Lemma mid_rix_at : forall w m n, kindof w n = KSym ->
+  rix (mod_index_discard w m n) m =
+  match referent (getn w n) with Some b => bucket_discard Z.eqb b n (rix w m) | None => rix w m end.
+Proof. intros w m n H. rewrite mid_rix by exact H. destruct (referent (getn w n)); [apply upd_same|reflexivity]. Qed.
+Lemma mid_nix_other : forall w m n m', m' <> m -> nix (mod_index_discard w m n) m' = nix w m'.
+Proof.
+  intros w m n m' H. unfold mod_index_discard. destruct (kindof w n); try reflexivity.
+  destruct (referent (getn w n)); cbn [set_rix set_nix nix]; apply upd_other; exact H.
+Qed.
+Lemma mid_rix_other : forall w m n m', m' <> m -> rix (mod_index_discard w m n) m' = rix w m'.
+Proof.
+  intros w m n m' H. unfold mod_index_discard. destruct (kindof w n); try reflexivity.
+  destruct (referent (getn w n)); cbn [set_rix set_nix rix]; [apply upd_other; exact H|reflexivity].
+Qed.
+Lemma mia_nix_at : forall w m n, kindof w n = KSym ->
+  nix (mod_index_add w m n) m = bucket_add Z.eqb (nname (getn w n)) n (nix w m).
+Proof. intros w m n H. rewrite mia_nix by exact H. apply upd_same. Qed.
+Lemma mia_rix_at : forall w m n, kindof w n = KSym ->
+  rix (mod_index_add w m n) m =
+  match referent (getn w n) with Some b => bucket_add Z.eqb b n (rix w m) | None => rix w m end.
+Proof. intros w m n H. rewrite mia_rix by exact H. destruct (referent (getn w n)); [apply upd_same|reflexivity]. Qed.
+Lemma mia_nix_other : forall w m n m', m' <> m -> nix (mod_index_add w m n) m' = nix w m'.
+Proof.
+  intros w m n m' H. unfold mod_index_add. destruct (kindof w n); try reflexivity.
+  destruct (referent (getn w n)); cbn [set_rix set_nix nix]; apply upd_other; exact H.
+Qed.
+Lemma mia_rix_other : forall w m n m', m' <> m -> rix (mod_index_add w m n) m' = rix w m'.
+Proof.
+  intros w m n m' H. unfold mod_index_add. destruct (kindof w n); try reflexivity.
+  destruct (referent (getn w n)); cbn [set_rix set_nix rix]; [apply upd_other; exact H|reflexivity].
+Qed.
+
+(* ---------- result plumbing ---------- *)
+
+Lemma flagged_ok : forall r w', flagged r = Ok w' -> w' = fst r.
+Proof. intros [w ok] w' H. unfold flagged in H. destruct ok; [|discriminate]. injection H as H. symmetry. exact H. Qed.
+
+Lemma bind_ok : forall {A B} (r : res A) (f : A -> res B) b, bind r f = Ok b -> exists a, r = Ok a /\ f a = Ok b.
+Proof. intros A B r f b H. destruct r as [a|e]; [|discriminate]. exists a. split; [reflexivity|exact H]. Qed.
+
+Lemma fold_left_inv : forall {A B} (I : A -> Prop) (f : A -> B -> A) l a,
+  I a -> (forall a' b, In b l -> I a' -> I (f a' b)) -> I (fold_left f l a).
+Proof.
+  intros A B I f l. induction l as [|b l IH]; intros a Ha Hs; cbn [fold_left].
+  - exact Ha.
+  - apply IH.
+    + apply Hs; [left; reflexivity|exact Ha].
+    + intros a' b' Hb. apply Hs. right. exact Hb.
+Qed.
+
+Lemma kind_eqb_eq : forall a b, kind_eqb a b = true <-> a = b.
+Proof. intros a b. split; [destruct a, b; cbn; congruence|intros ->; destruct b; reflexivity]. Qed.
+
+Lemma is_k_kind : forall w n k, is_k w n k = true -> kindof w n = k.
+Proof. intros w n k H. unfold is_k in H. apply andb_prop in H. apply kind_eqb_eq. apply H. Qed.
